@@ -26,6 +26,7 @@ typedef struct {
   int swapped, swaps, early, bad;
   int scheds; fiber_t* sched1; fiber_t* sched2;
   int mpmc_pushes, mpsc_pushes, unlocks, spin_unlocks, destroys, ctx_destroys, frees, marker_writes, yields, creates, balances, pops, null_pops;
+  fiber_manager_t* mig_m0; fiber_mutex_t* b_mu; fiber_spinlock_t* b_sp; void** b_loc;   /* the manager I migrated away from and what fiber B has put in its slots */
   int foreign; void* l_locb;
   fiber_state_t state0; int next_null; int kind, with_unlock, in_cw, cw_taken; void* value; void* l_cw;
   void* l_loc; fiber_state_t l_me_state;
@@ -38,7 +39,7 @@ ghost_t G;
 _Atomic(void*) CW_LOC;
 fiber_t ME, NF, MF, OLD, DONEF, W1, W2;         /* me, the scheduler's next fiber, the maintenance fiber, the resumed manager's old/done fibers, waiters */
 fiber_manager_t VM0, VM1;
-fiber_spinlock_t SL_B; void* LOC_B; int MIGRATING;   /* a later fiber B's deferred actions (see fiber_mutex_unlock_internal below) */
+fiber_spinlock_t SL_B; void* LOC_B; int MIGRATING; fiber_mutex_t MX_B;   /* a later fiber B's deferred actions (see fiber_mutex_unlock_internal below) */
 fiber_mutex_t MX; fiber_spinlock_t SL; mpmc_fifo_t MQ; mpmc_fifo_node_t MQN; mpsc_fifo_t SQ; mpsc_fifo_node_t SN, SN1, SN2; void* LOC; hazard_pointer_thread_record_t HREC;
 static void stub_mpmc_push(hazard_pointer_thread_record_t* h, mpmc_fifo_t* f, mpmc_fifo_node_t* n);
 static void* stub_mpmc_trypop(hazard_pointer_thread_record_t* h, mpmc_fifo_t* f);
@@ -113,6 +114,8 @@ int fiber_mutex_unlock_internal(fiber_mutex_t* m) {
   if (MIGRATING) {
     fiber_manager_t* m0 = canonm(fiber_the_manager); fiber_manager_t* m1 = m0 == &VM0 ? &VM1 : &VM0;
     clear_slots(m0); m0->spinlock_to_unlock = verif_bool() ? &SL_B : 0; m0->set_wait_location = verif_bool() ? &LOC_B : 0; m0->set_wait_value = (void*)verif_u64();
+    m0->mutex_to_unlock = verif_bool() ? &MX_B : 0;
+    G.mig_m0 = m0; G.b_mu = m0->mutex_to_unlock; G.b_sp = m0->spinlock_to_unlock; G.b_loc = m0->set_wait_location;
     m0->to_schedule = 0; m0->done_fiber = 0;
     fiber_the_manager = m1; m1->current_fiber = &ME; clear_slots(m1);   /* (my own resume there was followed by that thread's maintenance) */
     G.l_locb = LOC_B;
@@ -180,9 +183,11 @@ void h_maintenance_migrating(void) {
   OLD.state = FIBER_STATE_WAITING; m->old_fiber = &OLD;
   /* the predecessor parked with a deferred mutex release (condition wait, multi channel): that is the only slot it can have set besides the queue pushes */
   m->mutex_to_unlock = &MX; m->mpsc_to_push.fifo = verif_bool() ? &SQ : 0; m->mpsc_to_push.node = &SN;
-  LOC_B = (void*)verif_u64(); spec_snap();
+  LOC_B = (void*)verif_u64(); G.mig_m0 = 0; spec_snap();
   fiber_manager_do_maintenance(); verif_sync(-1);
   VASSERT(!G.bad && G.unlocks == 1, "H: C01 maintenance releases the recorded mutex once");
+  VASSERT(G.mig_m0 != 0 && G.mig_m0->mutex_to_unlock == G.b_mu && G.mig_m0->spinlock_to_unlock == G.b_sp && G.mig_m0->set_wait_location == G.b_loc,
+          "H: C01 maintenance leaves the slots of the manager it migrated away from alone: they hold the deferred actions of a fiber whose context is not saved yet (erasing one loses that fiber's release)");
   VASSERT(G.foreign == 0, "H: C01 maintenance performs no deferred action of ANOTHER fiber: after the one step that can yield and migrate (the mutex release) it does not go back to the slots of the manager it started on — they may already hold the actions of a fiber whose context is not saved yet");
   VCANARY("maintenance (migrating unlock) can return");
 }
